@@ -268,17 +268,19 @@ Qed.
 (* ====================================================================== *)
 (* the compiler emits straight-line code for the straight-line fragment    *)
 (* ====================================================================== *)
-Lemma emit_enc0 o st st' : has_operand o = false -> emit o [] st = COk st' ->
+Lemma emit_enc0 o st st' : has_operand o = false -> emit true o [] st = COk st' ->
   st' = {| ccode := ccode st ++ enc1 (o, 0); cconsts := cconsts st; csym := csym st; cbreaks := cbreaks st |}.
 Proof.
   intros HO H. apply emit_ok in H. destruct H as (ins & HM & ->).
   unfold enc1. cbn [fst snd]. rewrite HO, HM. reflexivity.
 Qed.
 
-Lemma emit_enc1 o z st st' : has_operand o = true -> (0 <= z)%Z -> emit o [z] st = COk st' ->
+Lemma emit_enc1 o z st st' : has_operand o = true -> emit true o [z] st = COk st' ->
+  (0 <= z < 65536)%Z /\
   st' = {| ccode := ccode st ++ enc1 (o, Z.to_N z); cconsts := cconsts st; csym := csym st; cbreaks := cbreaks st |}.
 Proof.
-  intros HO Hz H. apply emit_ok in H. destruct H as (ins & HM & ->).
+  intros HO H. apply emit_ok in H. destruct H as (ins & HM & ->).
+  pose proof (make_some_range o z ins HO HM) as HR. split; [exact HR|].
   unfold enc1. cbn [fst snd]. rewrite HO, Z2N.id, HM by lia. reflexivity.
 Qed.
 
@@ -321,33 +323,34 @@ Definition globals_below (sym : symtab) (gc : N) : Prop :=
   forall n y, st_resolve n sym = Some y -> sscp y = GlobalScope /\ sidx y < gc.
 
 Definition expr_sl (e : expr) : Prop :=
-  forall st st', compile_expr false e st = COk st' ->
+  forall st st', compile_expr true e st = COk st' ->
     csym st' = csym st /\
     exists ops newc,
       ccode st' = ccode st ++ encode ops /\ cconsts st' = cconsts st ++ newc /\
       forall nc gc k,
-        N.of_nat (List.length (cconsts st')) <= nc -> nc <= 65536 -> gc <= 65536 ->
+        N.of_nat (List.length (cconsts st')) <= nc ->
         globals_below (csym st) gc ->
         runs nc gc ops k = Some (k + 1).
 
 Lemma encode_one x : encode [x] = enc1 x.
 Proof. unfold encode. cbn [flat_map]. apply app_nil_r. Qed.
 
-Lemma const_sl k0 st st' : emit_const k0 st = COk st' ->
+Lemma const_sl k0 st st' : emit_const true k0 st = COk st' ->
+  N.of_nat (List.length (cconsts st)) < 65536 /\
   csym st' = csym st /\
   ccode st' = ccode st ++ encode [(Constant, N.of_nat (List.length (cconsts st)))] /\
   cconsts st' = cconsts st ++ [k0].
 Proof.
-  unfold emit_const. intro H. apply emit_enc1 in H; [|reflexivity|lia]. subst st'. cbn [csym ccode cconsts].
-  split; [reflexivity|]. split; [|reflexivity]. rewrite encode_one.
+  unfold emit_const. intro H. apply emit_enc1 in H; [|reflexivity]. destruct H as [HR ->]. cbn [csym ccode cconsts].
+  split; [lia|]. split; [reflexivity|]. split; [|reflexivity]. rewrite encode_one.
   replace (Z.to_N (Z.of_nat (List.length (cconsts st)))) with (N.of_nat (List.length (cconsts st))) by lia. reflexivity.
 Qed.
 
 Lemma encode_app a b : encode (a ++ b) = encode a ++ encode b.
 Proof. unfold encode. apply flat_map_app. Qed.
 
-Lemma binop_opc op lt rt st2 st' : compile_binop op lt rt st2 = COk st' ->
-  exists o, emit o [] st2 = COk st' /\ has_operand o = false /\ is_sl o = true /\ simple_effect o 0 = Some (2, 1).
+Lemma binop_opc op lt rt st2 st' : compile_binop true op lt rt st2 = COk st' ->
+  exists o, emit true o [] st2 = COk st' /\ has_operand o = false /\ is_sl o = true /\ simple_effect o 0 = Some (2, 1).
 Proof.
   unfold compile_binop. intro H.
   destruct op; try (eexists; split; [exact H|]; repeat split);
@@ -358,44 +361,44 @@ Qed.
 Theorem efrag_sl : forall e, efrag e = true -> expr_sl e.
 Proof.
   induction e; intro HF; try discriminate HF; unfold expr_sl; intros st st' HC.
-  - (* ENum *) simpl in HC. destruct (const_sl _ _ _ HC) as (A & B & C).
+  - (* ENum *) simpl in HC. destruct (const_sl _ _ _ HC) as (R0 & A & B & C).
     split; [exact A|]. eexists _, _. split; [exact B|]. split; [exact C|].
-    intros nc gc k H1 H2 H3 _. rewrite C, app_length in H1. simpl in H1. cbn [runs].
+    intros nc gc k H1 _. rewrite C, app_length in H1. simpl in H1. cbn [runs].
     rewrite sop_ok_const by lia. reflexivity.
   - (* EBool *) simpl in HC.
     assert (HO : has_operand (if b then OTrue else OFalse) = false) by (destruct b; reflexivity).
     pose proof (emit_enc0 _ _ _ HO HC) as ->. cbn [csym ccode cconsts].
     split; [reflexivity|]. exists [(if b then OTrue else OFalse, 0)], []. split; [rewrite encode_one; reflexivity|].
-    split; [rewrite app_nil_r; reflexivity|]. intros nc gc k _ _ _ _. cbn [runs].
+    split; [rewrite app_nil_r; reflexivity|]. intros nc gc k _ _. cbn [runs].
     rewrite (sop_ok_noarg nc gc _ 0 k HO) by (destruct b; try reflexivity; lia). f_equal. lia.
-  - (* EStr *) simpl in HC. destruct (const_sl _ _ _ HC) as (A & B & C).
+  - (* EStr *) simpl in HC. destruct (const_sl _ _ _ HC) as (R0 & A & B & C).
     split; [exact A|]. eexists _, _. split; [exact B|]. split; [exact C|].
-    intros nc gc k H1 H2 H3 _. rewrite C, app_length in H1. simpl in H1. cbn [runs].
+    intros nc gc k H1 _. rewrite C, app_length in H1. simpl in H1. cbn [runs].
     rewrite sop_ok_const by lia. reflexivity.
   - (* EVar *) simpl in HC. unfold compile_var in HC.
     destruct (st_resolve n (csym st)) as [y|] eqn:ER; [|discriminate].
     destruct (sscp y) eqn:ES.
-    + apply emit_enc1 in HC; [|reflexivity|lia]. subst st'. cbn [csym ccode cconsts].
+    + apply emit_enc1 in HC; [|reflexivity]. destruct HC as [HRng ->]. cbn [csym ccode cconsts].
       split; [reflexivity|]. exists [(GetGlobal, sidx y)], []. rewrite N2Z.id.
       split; [rewrite encode_one; reflexivity|]. split; [rewrite app_nil_r; reflexivity|].
-      intros nc gc k _ _ H3 HG. destruct (HG _ _ ER) as [_ HI]. cbn [runs].
+      intros nc gc k _ HG. destruct (HG _ _ ER) as [_ HI]. cbn [runs].
       rewrite sop_ok_getglobal by lia. reflexivity.
     + (* a local: not in the straight-line top-level fragment; still straight-line? GetLocal is excluded *)
-      apply emit_enc1 in HC; [|reflexivity|lia]. subst st'. cbn [csym ccode cconsts].
+      apply emit_enc1 in HC; [|reflexivity]. destruct HC as [HRng ->]. cbn [csym ccode cconsts].
       split; [reflexivity|]. exists [(GetLocal, sidx y)], []. rewrite N2Z.id.
       split; [rewrite encode_one; reflexivity|]. split; [rewrite app_nil_r; reflexivity|].
-      intros nc gc k _ _ _ HG. destruct (HG _ _ ER) as [HS _]. congruence.
+      intros nc gc k _ HG. destruct (HG _ _ ER) as [HS _]. congruence.
   - (* EUn *)
     assert (HF1 : efrag e = true) by (destruct op; simpl in HF; congruence).
     specialize (IHe HF1). simpl in HC. bind_inv HC.
     destruct (IHe _ _ H) as (A & ops & newc & B & C & D).
-    assert (exists o, emit o [] st0 = COk st' /\ has_operand o = false /\ is_sl o = true /\ simple_effect o 0 = Some (1, 1))
+    assert (exists o, emit true o [] st0 = COk st' /\ has_operand o = false /\ is_sl o = true /\ simple_effect o 0 = Some (1, 1))
       as (o & HEm & HO & HS & HE).
     { destruct op; try discriminate HF; (eexists; split; [exact HC|]; repeat split). }
     pose proof (emit_enc0 _ _ _ HO HEm) as ->. cbn [csym ccode cconsts].
     split; [exact A|]. exists (ops ++ [(o, 0)]), newc.
     split; [rewrite encode_app, encode_one, B, app_assoc; reflexivity|].
-    split; [exact C|]. intros nc gc k H1 H2 H3 HG.
+    split; [exact C|]. intros nc gc k H1 HG.
     eapply runs_app; [apply (D nc gc k); auto|]. cbn [runs].
     rewrite (sop_ok_noarg nc gc o 1 (k + 1) HO HS HE) by lia. f_equal. lia.
   - (* EBin *)
@@ -408,7 +411,7 @@ Proof.
     split; [congruence|]. exists (ops1 ++ ops2 ++ [(o, 0)]), (newc1 ++ newc2).
     split; [rewrite !encode_app, encode_one, B2, B1, <- !app_assoc; reflexivity|].
     split; [rewrite C2, C1, <- app_assoc; reflexivity|].
-    intros nc gc k H1 H2 H3 HG.
+    intros nc gc k H1 HG.
     eapply runs_app; [apply (D1 nc gc k); auto; rewrite C2, app_length in H1; lia|].
     eapply runs_app; [apply (D2 nc gc (k + 1)); auto; rewrite A1; exact HG|]. cbn [runs].
     rewrite (sop_ok_noarg nc gc o 2 (k + 1 + 1) HO HS HE) by lia. f_equal. lia.
@@ -453,23 +456,23 @@ Definition stmt_sl (st st' : cstate) : Prop :=
   exists ops newc,
     ccode st' = ccode st ++ encode ops /\ cconsts st' = cconsts st ++ newc /\
     forall nc gc,
-      N.of_nat (List.length (cconsts st')) <= nc -> nc <= 65536 ->
-      index (cur (csym st')) <= gc -> gc <= 65536 ->
+      N.of_nat (List.length (cconsts st')) <= nc ->
+      index (cur (csym st')) <= gc ->
       runs nc gc ops 0 = Some 0.
 
 Lemma set_global_sl y st1 st' gcur :
-  emit_set_var y st1 = COk st' -> sscp y = GlobalScope -> sidx y < gcur ->
+  emit_set_var true y st1 = COk st' -> sscp y = GlobalScope -> sidx y < gcur ->
   csym st' = csym st1 /\ cconsts st' = cconsts st1 /\
   ccode st' = ccode st1 ++ encode [(SetGlobal, sidx y)] /\
-  forall nc gc, gcur <= gc -> gc <= 65536 -> runs nc gc [(SetGlobal, sidx y)] (0 + 1) = Some 0.
+  forall nc gc, gcur <= gc -> runs nc gc [(SetGlobal, sidx y)] (0 + 1) = Some 0.
 Proof.
-  unfold emit_set_var. intros H HS HI. rewrite HS in H. apply emit_enc1 in H; [|reflexivity|lia]. subst st'.
+  unfold emit_set_var. intros H HS HI. rewrite HS in H. apply emit_enc1 in H; [|reflexivity]. destruct H as [HRng ->].
   cbn [csym ccode cconsts]. rewrite N2Z.id. repeat split; try (rewrite encode_one; reflexivity).
-  intros nc gc H1 H2. cbn [runs]. rewrite sop_ok_setglobal by lia. reflexivity.
+  intros nc gc H1. cbn [runs]. rewrite sop_ok_setglobal by lia. reflexivity.
 Qed.
 
 Lemma stmt_frag_sl s st st' :
-  sfrag_stmt s = true -> compile_stmt false s st = COk st' -> top_ok st -> stmt_sl st st'.
+  sfrag_stmt s = true -> compile_stmt true s st = COk st' -> top_ok st -> stmt_sl st st'.
 Proof.
   intros HF HC HT. pose proof HT as (HO & HI & HN). unfold stmt_sl, top_ok.
   destruct s; try discriminate HF.
@@ -494,7 +497,7 @@ Proof.
     split; [rewrite E1; repeat split; auto|]. split; [rewrite E1; exact T4|].
     exists (ops ++ [(SetGlobal, sidx y)]), newc.
     split; [rewrite encode_app, E3, B, app_assoc; reflexivity|]. split; [rewrite E2; exact C|].
-    intros nc gc H1 H2 H3 H4. rewrite E1 in H3. cbn [csym] in H3.
+    intros nc gc H1 H3. rewrite E1 in H3. cbn [csym] in H3.
     eapply runs_app.
     + apply (D nc gc 0); auto; [rewrite <- E2; exact H1|].
       intros m ym HR. destruct (top_globals st HT m ym HR) as [S R]. split; [exact S|lia].
@@ -508,7 +511,7 @@ Proof.
     split; [rewrite E1, A; exact HT|]. split; [rewrite E1, A; lia|].
     exists (ops ++ [(SetGlobal, sidx y)]), newc.
     split; [rewrite encode_app, E3, B, app_assoc; reflexivity|]. split; [rewrite E2; exact C|].
-    intros nc gc H1 H2 H3 H4. rewrite E1, A in H3.
+    intros nc gc H1 H3. rewrite E1, A in H3.
     eapply runs_app.
     + apply (D nc gc 0); auto; [rewrite <- E2; exact H1|].
       intros m ym HR. destruct (top_globals st HT m ym HR) as [S' R']. split; [exact S'|lia].
@@ -520,7 +523,7 @@ Proof.
 Qed.
 
 Lemma slist_frag_sl p : forall st st',
-  sfrag p = true -> compile_slist false p st = COk st' -> top_ok st -> stmt_sl st st'.
+  sfrag p = true -> compile_slist true p st = COk st' -> top_ok st -> stmt_sl st st'.
 Proof.
   induction p as [|s t IH]; intros st st' HF HC HT; unfold stmt_sl.
   - simpl in HC. inversion HC; subst st'. split; [exact HT|]. split; [lia|].
@@ -532,7 +535,7 @@ Proof.
     split; [exact T2|]. split; [lia|]. exists (ops1 ++ ops2), (newc1 ++ newc2).
     split; [rewrite encode_app, B2, B1, app_assoc; reflexivity|].
     split; [rewrite C2, C1, app_assoc; reflexivity|].
-    intros nc gc H1 H2 H3 H4. eapply runs_app.
+    intros nc gc H1 H3. eapply runs_app.
     + apply D1; auto; [rewrite C2, app_length in H1; lia|lia].
     + apply D2; auto.
 Qed.
@@ -541,15 +544,15 @@ Lemma slist_ind_plain : forall (P : slist -> Prop), P SNil -> (forall s t, P t -
 Proof. intros P H0 H1. fix F 1. intros [|s t]; [exact H0|apply H1; apply F]. Qed.
 
 (* compile_wf_partial: for every top-level program of declarations and
-   assignments of fragment expressions, the compiler's output is well formed —
-   as long as the constant and global counts fit the 16-bit operands. *)
+   assignments of fragment expressions, if the compiler succeeds its output is
+   well formed.  No size guard: an operand that does not fit 16 bits makes the
+   compiler at HEAD fail (ErrOperandRange) instead of emitting code. *)
 Theorem compile_wf_partial : forall (p : slist) (st : cstate),
   sfrag p = true -> compile p = COk st ->
-  N.of_nat (List.length (cconsts st)) <= 65536 -> st_global_count (csym st) <= 65536 ->
   WF {| bcode := out_code (bytecode_of st); nconsts := N.of_nat (List.length (out_consts (bytecode_of st)));
         gcount := out_gcount (bytecode_of st); lcount := out_lcount (bytecode_of st) |}.
 Proof.
-  intros p st HF HC H1 H2. unfold compile, compile_program in HC.
+  intros p st HF HC. unfold compile, compile_program in HC.
   assert (HT : top_ok cinit) by (split; [reflexivity|split; [apply inv_new|reflexivity]]).
   destruct (slist_frag_sl p cinit st HF HC HT) as ((T1 & T2 & T3) & _ & ops & newc & B & C & D).
   unfold bytecode_of. cbn [out_code out_consts out_gcount out_lcount]. unfold st_local_count, st_global_count in *.
